@@ -16,7 +16,7 @@ class TypeEraseNext(Unit):
 
     # (a script that is used up continues with d: "v" = "vd", "-" = "d")
     QUICK = [("v", "stop"), ("d", "stop"), ("e", "stop"), ("ve", "stop"), ("vv", "stop"),
-             ("vv", "nostop"), ("ve", "nostop")]
+             ("vv", "nostop"), ("ve", "nostop"), ("v", "stop", "cerr")]
     MORE = [("vvv", "stop"), ("vve", "stop"), ("d", "nostop"), ("e", "nostop"), ("vvv", "nostop")]
 
     def programs(self, tier):
@@ -65,6 +65,8 @@ class TypeEraseNext(Unit):
                     registering.add(t)
                 if n in ("!cons.next", "!src.next.complete"):
                     out.append((mt, n + " " + r.split(" ")[0]))      # value / error code: checked by the monitor
+                elif n in ("!cons.cleanup", "!src.cleanup.complete"):
+                    out.append((mt, n))                              # done / error of the cleanup: checked by the monitor
                 else:
                     out.append((mt, (n + " " + r).strip()))
             else:
